@@ -485,6 +485,23 @@ def rule_thread_exit(prog, res, rule="R-THREAD-EXIT"):
                                                                    "acquire_get_state keeps reporting Running" if fld == "is_running" else
                                                                    "the next acquisition's worker sees a stale stop request"),
                          {"path_blocks": wit})
+        # is_running = 0 tells the client that this worker is done with its
+        # device: no device call may follow it (a client that polls the state
+        # and re-configures would reach the device concurrently)
+        def devcall(q):
+            return any((c.get("fn") or "").startswith(("storage_", "camera_")) and not (c.get("fn") or "").endswith("_get_state")
+                       for c in ir.calls_in(q))
+        late = []
+        for b, i, s_ in f.all_stmts():
+            if stores_const("is_running", 0)(s_):
+                late += [(b.id, i, x) for x in paths.reachable_after(f, (b.id, i), devcall)]
+        inst = "%s: no device call after is_running = 0" % tname
+        if not late:
+            res.oblige(rule, inst, True, "", f.loc())
+        else:
+            res.fail(rule, inst, "%s|%s|device-after-flag" % (rule, tname), f.loc(late[0][2][2]) if isinstance(late[0][2], tuple) else f.loc(),
+                     "%s clears is_running and then still calls into its device: the runtime reports Armed while the worker is inside the device, so a client that "
+                     "re-configures or restarts now reaches the device concurrently (a second stop, a set during stop, a close under the worker)" % tname)
     f = prog.func("video_source_thread")
     ok, wit = paths.all_paths_pass(f, "entry", "exit", paths.through_callees(prog, f, has_call("camera_stop")))
     inst = "video_source_thread stops the camera on every exit"
